@@ -537,6 +537,14 @@ class Unit:
                 arg = args[pnames.index(param)]
                 arg = re.sub(r'\s+', ' ', re.sub(r'//[^\n]*|/\*.*?\*/', ' ', arg, flags=re.S)).strip()     # comments between arguments
                 arg = self.apply_rules(arg, where)
+                # an argument BUILT on the spot by a pure constructor (`&Defines::new()`, `x.clone()`, `Default::default()`) cannot stand
+                # inside a proof block (exec call): in this obligation-only copy it is evaluated once more into a local the assertion reads
+                pm = re.match(r'^(&\s*(?:mut\s+)?)?([\w:<>, ]+::(?:new|default)\(\)|[\w.]+\.(?:clone|to_owned|to_path_buf|to_string)\(\))$', arg)
+                if pm:
+                    self._crn = getattr(self, '_crn', 0) + 1
+                    v_ = 'vx_cr%d' % self._crn
+                    ins.append((st, 'proof', [(tline, 'let %s = %s;' % (v_, pm.group(2)))]))
+                    arg = (pm.group(1) or '') + v_
                 ins.append((st, 'proof', [(tline, 'proof { assert(%s); }   %s' % (templ.replace('$', '(' + arg + ')'), lab))]))
                 n_sites += 1
             self.rewrites.append(('callreq %s.%s: %d call site(s) in %s' % (cname, param, n_sites, name), where, n_sites))
